@@ -3,20 +3,16 @@ import MythVerif.Proofs.WsQueueTsoTac
 namespace MythVerif.WsqTso
 open MythVerif.Wsq
 
-set_option maxHeartbeats 4000000 in
 theorem f_O_ptr_pt8 (s : St) (i0 x0) (rest : List Sto) (e b) : Inv s → s.opc = .pt8 e b →
     s.bufO = .ptr i0 x0 :: rest → Inv (applySto { s with bufO := rest } (.ptr i0 x0)) := by
   intro h hpc hb
   simp only [applySto]
-  cases h; simp only [hpc, ownerLocked, carry, resetting, ownerFlight] at *
-  tso_finish3
+  tso_fastO h hpc [pt8]
 
-set_option maxHeartbeats 4000000 in
 theorem f_O_ptr_pt9 (s : St) (i0 x0) (rest : List Sto) : Inv s → s.opc = .pt9 →
     s.bufO = .ptr i0 x0 :: rest → Inv (applySto { s with bufO := rest } (.ptr i0 x0)) := by
   intro h hpc hb
   simp only [applySto]
-  cases h; simp only [hpc, ownerLocked, carry, resetting, ownerFlight] at *
-  tso_finish3
+  tso_fastO h hpc [pt9]
 
 end MythVerif.WsqTso
